@@ -58,6 +58,8 @@ type Env struct {
 	SumNumericOnly bool // sum() over a node whose string-value is not a number
 	ModDomainOnly  bool // mod unless both operands are non-negative integers and the divisor is non-zero
 	StringNumSmall bool // string(number) unless finite and |v| < 1e6
+
+	sawUndef bool // set when a predicate evaluated to "undefined"
 }
 
 type ctx struct {
@@ -68,7 +70,14 @@ type ctx struct {
 
 // Eval evaluates e with context node n (position 1 of 1).
 func Eval(env *Env, n int, e gen.Expr) Value {
-	return eval(&ctx{env: env, node: n, pos: 1, size: 1}, e)
+	env.sawUndef = false
+	v := eval(&ctx{env: env, node: n, pos: 1, size: 1}, e)
+	if env.sawUndef {
+		// some predicate had no defined value (outside the property's fragment):
+		// the whole evaluation is outside the fragment
+		return undef()
+	}
+	return v
 }
 
 // ---------------------------------------------------------------- axes ----
@@ -224,6 +233,9 @@ func (c *ctx) applyPreds(cand []int, preds []gen.Expr) []int {
 		var keep []int
 		for i, x := range cand {
 			v := eval(&ctx{env: c.env, node: x, pos: i + 1, size: len(cand)}, p)
+			if v.T == TUndef {
+				c.env.sawUndef = true
+			}
 			ok := false
 			if v.T == TNum {
 				ok = v.N == float64(i+1)
